@@ -96,16 +96,34 @@ pub struct Ledger {
 pub static LEDGER: Mutex<Option<Ledger>> = Mutex::new(None);
 
 pub fn with_ledger<T>(f: impl FnOnce(&mut Ledger) -> T) -> T {
-    let mut g = LEDGER.lock().unwrap_or_else(|e| e.into_inner());
-    if g.is_none() {
-        *g = Some(Ledger::default());
-    }
-    f(g.as_mut().unwrap())
+    // the ledger's own memory is the harness's, not the library's
+    let was = crate::alloc_audit::set_in_lib(false);
+    let r = {
+        let mut g = LEDGER.lock().unwrap_or_else(|e| e.into_inner());
+        if g.is_none() {
+            *g = Some(Ledger::default());
+        }
+        f(g.as_mut().unwrap())
+    };
+    crate::alloc_audit::set_in_lib(was);
+    r
+}
+
+/// Run harness bookkeeping outside the library-allocation window.
+pub fn no_lib<T>(f: impl FnOnce() -> T) -> T {
+    let was = crate::alloc_audit::set_in_lib(false);
+    let r = f();
+    crate::alloc_audit::set_in_lib(was);
+    r
 }
 
 pub fn reset_ledger() {
-    let mut g = LEDGER.lock().unwrap_or_else(|e| e.into_inner());
-    *g = Some(Ledger::default());
+    let was = crate::alloc_audit::set_in_lib(false);
+    {
+        let mut g = LEDGER.lock().unwrap_or_else(|e| e.into_inner());
+        *g = Some(Ledger::default());
+    }
+    crate::alloc_audit::set_in_lib(was);
 }
 
 pub fn take_drops() -> Vec<(usize, Option<u64>)> {
